@@ -21,6 +21,9 @@ Decided (configuration dataflow and failure-path structure; OpenSSL's own chain/
         protocol layer and yields ``RegisterHttpConnection(server, err)``; ``register_connection`` replies ``(None, err)``;
         ``make_server_connection`` turns it into a CONNECT_FAILED protocol error and its callers send nothing (no ``SendHttp``)
         afterwards.
+        The three HTTP-layer steps (HttpClient, register_connection, make_server_connection) are read by value with C08's
+        path analysis: the outcome of OpenConnection / the unpacked reply of GetHttpConnection are symbols followed through
+        renamed locals, temporaries, conditional expressions and extracted `self.<helper>()` calls.
 Not decided: the verdict of OpenSSL / aioquic on concrete certificate chains.
 """
 
@@ -40,6 +43,13 @@ from ..paths import index_of
 from ..paths import R
 from ..paths import traces_of
 from ..selftest import Mutant
+from .C08 import helper_resolver
+from .C08 import canon_chain
+from .C08 import DSpec
+from .C08 import run_d
+from .C08 import server_connection_paths
+from .C08 import sym
+from .C08 import truthiness_subject
 from .C08 import waiter_replies
 from ._helpers_B import ceval
 from ._helpers_B import consistent
@@ -457,23 +467,58 @@ def _r15_4(ctx):
     ctx.check(bad == 0, "R15.4", (TU, "TunnelLayer._handshake_finished", hf), "err -> tunnel CLOSED, OpenConnectionCompleted(cmd, err)",
               f"{bad} of {n} error path(s) leave the tunnel open or answer the pending OpenConnection without the error", desc="_handshake_finished(err): CLOSED + OpenConnectionCompleted(cmd, err)")
     # (e) HTTP layer
+    # HttpClient: the outcome of OpenConnection is followed by value (symbol `err`), whatever the local is called
     hc = ctx.func(HT, "HttpClient._handle_event")
-    res, eng = traces_of(hc, FlowSpec(keep=lambda ev: ev[0] in ("cond", "callx", "assign", "yield_from", "yield") and (ev[0] != "callx" or ev[1] == "RegisterHttpConnection"), call_nodes=True, implicit_raises=False))
+
+    def hc_val(expr, st, sp):
+        if isinstance(expr, ast.Yield) and isinstance(expr.value, ast.Call) and last_attr(expr.value.func) == "OpenConnection":
+            return sym("err")
+        return None
+
+    def hc_label(node, st, sp):
+        out = []
+        for n in ast.walk(node):
+            if isinstance(n, ast.Yield) and isinstance(n.value, ast.Call) and last_attr(n.value.func) == "OpenConnection":
+                out.append(("open", " ".join(canon_chain(a, st, sp) or norm(a) for a in n.value.args)))
+            elif isinstance(n, ast.YieldFrom):
+                out.append(("delegate", norm(n.value)))
+            elif isinstance(n, ast.Call) and last_attr(n.func) == "RegisterHttpConnection":
+                args = list(n.args) + [k.value for k in n.keywords]
+                tags = []
+                for a_ in args:
+                    v = sp.v(a_, st)
+                    tags.append(v[1] if v[:1] == ("sym",) else "None" if v == C(None) else canon_chain(a_, st, sp) or norm(a_))
+                out.append(("register", tuple(tags)))
+        if isinstance(node, (ast.Assign, ast.AnnAssign)):
+            for t_ in node.targets if isinstance(node, ast.Assign) else [node.target]:
+                if canon_chain(t_, st, sp) in ("self.child_layer", "self._handle_event"):
+                    out.append(("build", canon_chain(t_, st, sp)))
+        return out
+
+    def hc_atom(expr, st, sp):
+        ts = truthiness_subject(expr)
+        if ts is not None and sp.v(ts[0], st) == sym("err"):
+            return ("ERR", ts[1])
+        return None
+
     n = bad = 0
-    for t, how, st in res:
-        if how != "return" or not consistent(t, ("err",)):
-            continue
-        ctx.paths += 1
-        errc = [e[2] for e in t if e[0] == "cond" and e[1] == "err"]
-        builds = any(e[0] == "assign" and e[1] in ("self.child_layer", "self._handle_event") for e in t) or any(e[0] == "yield_from" for e in t)
-        reg = [e[2] for e in t if e[0] == "callx"]
-        ok = len(reg) == 1 and len(reg[0].args) == 2 and norm(reg[0].args[0]) == "self.context.server" and norm(reg[0].args[1]) == "err"
-        if builds:
-            # a protocol layer may only be built on a path that established `not err`
-            ok = ok and errc and not any(errc)
-        else:
-            n += 1
-        bad += not ok
+    for world in (True, False):
+        spec = DSpec(label=hc_label, atom=hc_atom, val=hc_val, scenario={"ERR": world}, resolver=helper_resolver(ctx, "HttpClient", ("_handle_event",)))
+        res, eng = run_d(hc.body, spec)
+        for t, how, st in res:
+            if how != "return":
+                continue
+            ctx.paths += 1
+            opened = [e for e in t if e[0] == "open"]
+            failed = world and bool(opened)
+            reg = [e[1] for e in t if e[0] == "register"]
+            builds = any(e[0] in ("build", "delegate") for e in t)
+            ok = len(reg) == 1 and len(reg[0]) == 2 and reg[0][0] == "self.context.server" and reg[0][1] in (("err",) if failed else ("err", "None") if opened else ("None",))
+            ok = ok and all(e[1] == "self.context.server" for e in opened)
+            if failed:
+                n += 1
+                ok = ok and not builds  # a protocol layer may only be built when the connection attempt did not fail
+            bad += not ok
     ctx.require(n > 0 or bad > 0, "HttpClient._handle_event: no path with a connection error")
     ctx.check(bad == 0, "R15.4", (HT, "HttpClient._handle_event", hc), "err -> RegisterHttpConnection(server, err), no protocol layer",
               f"{bad} path(s) build a client protocol layer without having established `not err`, or do not register the connection with the error", desc="HttpClient: error -> RegisterHttpConnection(server, err) only")
@@ -485,17 +530,14 @@ def _r15_4(ctx):
     bad = sum(1 for r in replies if r != ("reply", "None", f"{cmdp}.err"))
     ctx.check(bad == 0, "R15.4", (HT, "HttpLayer.register_connection", rc), "command.err -> reply = (None, command.err)", f"{bad} error path(s) reply with a usable connection", desc="register_connection: error -> (None, err)")
     # make_server_connection + callers
-    msc = ctx.func(HT, "HttpStream.make_server_connection")
-    res, eng = traces_of(msc, FlowSpec(keep=lambda ev: ev[0] in ("cond", "callx", "assign", "ret") and (ev[0] != "callx" or ev[1] == "ResponseProtocolError"), call_nodes=True, ret_nodes=True, implicit_raises=False))
+    # (the reply of GetHttpConnection is followed by value: `conn`, `err` stand for the two unpacked elements whatever they are called)
+    msc, outcomes, _ = server_connection_paths(ctx)
     n = bad = 0
-    for t, how, st in res:
-        if not any(e[0] == "cond" and e[1] == "err" and e[2] for e in t):
-            continue
+    for evs, how, ret in outcomes[True]:
         n += 1
-        pe = [e[2] for e in t if e[0] == "callx"]
-        ret = [e[1] for e in t if e[0] == "ret"]
-        ok = len(pe) == 1 and any(norm(a) == "ErrorCode.CONNECT_FAILED" for a in pe[0].args) and any(norm(a) == "err" for a in pe[0].args)
-        ok = ok and len(ret) == 1 and isinstance(ret[0], ast.Constant) and ret[0].value is False and not any(e[0] == "assign" and e[1] == "self.context.server" for e in t)
+        pe = [e[1] for e in evs if e[0] == "protoerr"]
+        ok = len(pe) == 1 and "ErrorCode.CONNECT_FAILED" in pe[0] and "err" in pe[0]
+        ok = ok and how == "return" and ret == C(False) and not any(e[0] == "bind" and e[1] == "self.context.server" for e in evs)
         bad += not ok
     ctx.require(n > 0, "make_server_connection: no error path")
     ctx.check(bad == 0, "R15.4", (HT, "HttpStream.make_server_connection", msc), "err -> ResponseProtocolError(CONNECT_FAILED), return False",
